@@ -1,0 +1,17 @@
+//go:build verif
+
+// Generated protobuf code: getters are TRUSTED (nil-tolerant accessors), not verified.
+package store
+
+//@ func (*SetFileRequest).GetChunk
+//@   trusted
+//@ func (*SetFileRequest).GetHeader
+//@   trusted
+//@ func (*GetFileResponse).GetChunk
+//@   trusted
+//@ func (*GetFileResponse).GetHeader
+//@   trusted
+//@ func (*FileHeader).GetKey
+//@   trusted
+//@ func (*GetFileRequest).GetKey
+//@   trusted
